@@ -164,8 +164,28 @@ fn files(args: &[String]) {
         } else {
             "skipped"
         };
+        // "the server then behaves exactly as an uninterrupted server would": serve one client, list the leases
+        let usable = if again == "ok" {
+            match guarded(|| -> Result<usize, pool::Error> {
+                let mut p = pool::Pool::verif_open(&path)?;
+                let n0 = p.get_leases().map(|v| v.len()).unwrap_or(usize::MAX);
+                let mut set = pool::PoolAddresses::default();
+                set.insert(std::net::Ipv4Addr::new(10, 200, 0, 1));
+                p.allocate_address(b"after-open", None, &set, std::time::Duration::from_secs(60), std::time::Duration::from_secs(60), b"\xff")?;
+                let n1 = p.get_leases()?.len();
+                p.verif_conn().execute("DELETE FROM leases WHERE address = '10.200.0.1'", []).map_err(|e| pool::Error::DbError(e.to_string()))?;
+                Ok(n1.wrapping_sub(n0))
+            }) {
+                Ok(Ok(1)) => "ok",
+                Ok(Ok(_)) => "miscount",
+                Ok(Err(_)) => "err",
+                Err(_) => "panic",
+            }
+        } else {
+            "skipped"
+        };
         let after = inspect(&path);
-        out.emit(json!({"ev":"fileopen","case":c,"file":before,"outcome":outcome,"errclass":classify(&err),"err":err,"again":again,"after":after}));
+        out.emit(json!({"ev":"fileopen","case":c,"file":before,"outcome":outcome,"errclass":classify(&err),"err":err,"again":again,"usable":usable,"after":after}));
         let _ = std::fs::remove_file(&path);
     }
     let n = out.finish();
@@ -242,25 +262,38 @@ fn child(args: &[String]) {
     writeln!(so, "opened").unwrap();
     so.flush().unwrap();
     let max = arg_u64(args, "--max", i64::MAX as u64) as i64;
+    const L: u64 = 1000;
     let mut i: i64 = 0;
     loop {
         if i >= max {
             return;
         }
         i += 1;
-        let x = 1 + (i % 50);
-        let c = 1 + (i % 7);
-        let id = format!("kc-{}", c).into_bytes();
+        // odd steps: a new client takes a new address; even steps: 100 seconds pass for that
+        // lease (stored timestamps shifted) and the client renews it
+        let k = (i + 1) / 2;
+        let x = 1 + (k % 200);
+        let id = format!("kc-{}", k).into_bytes();
+        if i % 2 == 0 {
+            // announced BEFORE it happens: from here on the lease of x may be 100 s older than acknowledged
+            if writeln!(so, "shift {}", x).is_err() || so.flush().is_err() {
+                return;
+            }
+            let _ = p.verif_conn().execute(
+                "UPDATE leases SET start = start - 100, expiry = expiry - 100 WHERE address = ?1",
+                rusqlite::params![std::net::Ipv4Addr::from(0x0A00_0000u32 + x as u32).to_string()],
+            );
+        }
         let mut set = pool::PoolAddresses::default();
         set.insert(std::net::Ipv4Addr::from(0x0A00_0000u32 + x as u32));
-        if let Ok(l) = p.allocate_address(&id, None, &set, std::time::Duration::from_secs(1), std::time::Duration::from_secs(1), b"opts") {
-            if writeln!(so, "ack {} {} {}", x, c, l.expire.as_secs()).is_err() || so.flush().is_err() {
-                return;
-            }
-        } else {
-            if writeln!(so, "nak {} {}", x, c).is_err() || so.flush().is_err() {
-                return;
-            }
+        let r = p.allocate_address(&id, None, &set, std::time::Duration::from_secs(L), std::time::Duration::from_secs(L), b"\x0c\x02hi\xff");
+        let line = match r {
+            // acknowledged only now, after allocate_address returned: the client is told "yours until E"
+            Ok(l) => format!("ack {} {} {}", x, k, now_secs() as u64 + l.expire.as_secs()),
+            Err(_) => format!("nak {} {}", x, k),
+        };
+        if writeln!(so, "{}", line).is_err() || so.flush().is_err() {
+            return;
         }
     }
 }
@@ -286,7 +319,7 @@ fn kill(args: &[String]) {
         let before = if kind == "fresh" { json!({"sv":"none","shape":"absent","rows":[]}) } else { inspect(&path) };
         // several kill/restart rounds on the same file
         let rounds = 1 + rng.below(3);
-        let mut acked: std::collections::HashMap<i64, i64> = std::collections::HashMap::new();
+        let mut acked: std::collections::HashMap<i64, (i64, i64)> = std::collections::HashMap::new();
         let mut kills = Vec::new();
         for _ in 0..rounds {
             let mut ch = std::process::Command::new(&exe)
@@ -308,8 +341,13 @@ fn kill(args: &[String]) {
                 if f[0] == "opened" {
                     opened = true;
                 }
-                if f[0] == "ack" && f.len() >= 3 {
-                    acked.insert(f[1].parse().unwrap(), f[2].parse().unwrap());
+                if f[0] == "ack" && f.len() >= 4 {
+                    acked.insert(f[1].parse().unwrap(), (f[2].parse().unwrap(), f[3].parse().unwrap()));
+                }
+                if f[0] == "shift" && f.len() >= 2 {
+                    if let Some(a) = acked.get_mut(&f[1].parse().unwrap()) {
+                        a.1 -= 100;
+                    }
                 }
             }
             let _ = ch.wait();
@@ -323,7 +361,7 @@ fn kill(args: &[String]) {
 }
 
 /// Reopen a file after the process working on it was killed; record what is there.
-fn post_mortem(path: &std::path::Path, kind: &str, kills: Vec<Value>, before: Value, acked: &std::collections::HashMap<i64, i64>) -> Value {
+fn post_mortem(path: &std::path::Path, kind: &str, kills: Vec<Value>, before: Value, acked: &std::collections::HashMap<i64, (i64, i64)>) -> Value {
     let r = guarded(|| pool::Pool::verif_open(path).map(|p| drop(p)));
     let (outcome, err) = match r {
         Ok(Ok(())) => ("ok", String::new()),
@@ -344,13 +382,13 @@ fn post_mortem(path: &std::path::Path, kind: &str, kills: Vec<Value>, before: Va
             && let Some(cs) = std::str::from_utf8(c).ok().and_then(|t| t.strip_prefix("kc-"))
         {
             let x = a.parse::<std::net::Ipv4Addr>().map(|ip| u32::from(ip) as i64 - 0x0A00_0000).unwrap_or(-1);
-            present.push(json!([x, cs.parse::<i64>().unwrap_or(-1)]));
-            if s.is_none() || e.is_none() || s.unwrap() + 1 != e.unwrap() {
-                partial = true; // new rows are written with a lease of exactly 1 s
+            present.push(json!([x, cs.parse::<i64>().unwrap_or(-1), s.unwrap_or(-1), e.unwrap_or(-1)]));
+            if s.is_none() || e.is_none() {
+                partial = true;
             }
         }
     }
-    let mut ack: Vec<Value> = acked.iter().map(|(x, c)| json!([x, c])).collect();
+    let mut ack: Vec<Value> = acked.iter().map(|(x, (c, e))| json!([x, c, e])).collect();
     ack.sort_by_key(|v| v[0].as_i64());
     json!({"ev":"kill","kind":kind,"kills":kills,"before":before,"outcome":outcome,"errclass":classify(&err),"err":err,
            "after":after,"acked":ack,"present":present,"partial":partial})
@@ -358,7 +396,7 @@ fn post_mortem(path: &std::path::Path, kind: &str, kills: Vec<Value>, before: Va
 
 const SYSCALLS: [&str; 4] = ["pwrite64", "fdatasync", "unlink", "ftruncate"];
 
-fn strace_child(path: &std::path::Path, max: u64, inject: Option<(&str, u64)>, log: &std::path::Path) -> (bool, Vec<(i64, i64)>) {
+fn strace_child(path: &std::path::Path, max: u64, inject: Option<(&str, u64)>, log: &std::path::Path) -> (bool, Vec<(i64, (i64, i64))>) {
     let exe = std::env::current_exe().unwrap();
     let journal = format!("{}-journal", path.to_str().unwrap());
     let mut cmd = std::process::Command::new("strace");
@@ -381,8 +419,14 @@ fn strace_child(path: &std::path::Path, max: u64, inject: Option<(&str, u64)>, l
         if f[0] == "opened" {
             opened = true;
         }
-        if f[0] == "ack" && f.len() >= 3 {
-            acks.push((f[1].parse().unwrap(), f[2].parse().unwrap()));
+        if f[0] == "ack" && f.len() >= 4 {
+            acks.push((f[1].parse().unwrap(), (f[2].parse().unwrap(), f[3].parse().unwrap())));
+        }
+        if f[0] == "shift" && f.len() >= 2 {
+            let x: i64 = f[1].parse().unwrap();
+            if let Some(a) = acks.iter_mut().rev().find(|a| a.0 == x) {
+                a.1.1 -= 100;
+            }
         }
     }
     let _ = ch.wait();
@@ -419,7 +463,7 @@ fn crashpoints(args: &[String]) {
         prepare(&path);
         let before = if kind == "fresh" { json!({"sv":"none","shape":"absent","rows":[]}) } else { inspect(&path) };
         let (opened, acks) = strace_child(&path, max, None, &log);
-        if !opened || acks.len() as u64 != max {
+        if !opened || (acks.len() as u64) < max {
             eprintln!("crashpoints: dry run under strace failed (opened={}, acks={})", opened, acks.len());
             std::process::exit(4);
         }
@@ -430,7 +474,7 @@ fn crashpoints(args: &[String]) {
             while k <= count {
                 prepare(&path);
                 let (opened, acks) = strace_child(&path, max, Some((sc, k)), &log);
-                let acked: std::collections::HashMap<i64, i64> = acks.into_iter().collect();
+                let acked: std::collections::HashMap<i64, (i64, i64)> = acks.into_iter().collect();
                 let mut e = post_mortem(&path, kind, vec![json!([k, opened])], before.clone(), &acked);
                 e["crashpoint"] = json!({"syscall": sc, "k": k, "of": count});
                 out.emit(e);
